@@ -39,9 +39,9 @@ PROPS = {
                 outside=["BufferedWriter::push_cdp_arr/flush (best-effort harnesses exhaust 16 GB)", "files, stdout, the 1 MiB threshold, the writer thread", "union over all filter values", "stdin reader"]),
     "C09": dict(decided="ItsPayloadFsmContinuous::advance from new() over all sequences of <= 12 words (thorough: 20) is bisimilar to the documented diagram (12 implementation states, every edge covered); one step from every reachable state; reset_fsm; an identifier illegal in a state is reported ([E30]/[E40] in single-successor states, [E99x] + fallback sanity error in choice states) at the word",
                 outside=["sequences longer than 12 (thorough: 20) words in one query (covered inductively by the one-step harness)"]),
-    "C10": dict(decided="RdhCruSanityValidator verdict == documented rules for all 2^512 headers (default, ITS-specialised, configured version; Header ID relative to the first header seen); RdhCruRunningChecker verdict == documented automaton over all 3-header histories from an HBF start and one step from an arbitrary checker state; LinkValidator::do_rdh_checks on an arbitrary first header: number of errors, [E10], every error at the RDH offset",
-                outside=["the context rows of the RDH messages (previous RDHs, header text)", "RDH error offsets beyond the first header of a link", "page-counter overflow after 65535 pages without stop"]),
-    "C11": dict(decided="every one of the 2^80 values of an IHW/TDH/TDT/DDW0: sanity verdict == documented rule (ID, reserved masks, TDH trigger rule, DDW0 index); data word: ID range verdict for all ids; lane-active verdict for all ids x all lane masks; OB input <= 6 and lane = 7*connector+input",
+    "C10": dict(decided="RdhCruSanityValidator verdict == documented rules for all 2^512 headers (default, ITS-specialised, configured version; Header ID relative to the first header seen); RdhCruRunningChecker verdict == documented automaton over all 3-header histories from an HBF start and one step from an arbitrary checker state; LinkValidator::do_rdh_checks on an arbitrary first header and on an arbitrary second header after a conforming one: number of errors, [E10], every error at that RDH's offset",
+                outside=["the context rows of the RDH messages (previous RDHs, header text)", "RDH error offsets beyond the second header of a link", "page-counter overflow after 65535 pages without stop"]),
+    "C11": dict(decided="every one of the 2^80 values of an IHW/TDH/TDT/DDW0: sanity verdict == documented rule (ID, reserved masks, TDH trigger rule, DDW0 index); data word: ID range verdict for all ids; lane-active verdict for all ids x all lane masks; OB input <= 6 and lane = 7*connector+input; the payload FSM classifies a byte as a data word in every state exactly for the ids in the valid ranges (one step from every reachable state, bisimulation over 8 words)",
                 outside=["the error text", "the three OB ids 0x47/0x4F/0x57 whose lane shift overflows in the dev profile (noted under C04)"]),
     "C12": dict(decided="preprocess_payload on every payload of length 0..=64 (arbitrary contents, release semantics): Err iff trailing 0xFF run > 15; otherwise exactly the documented number of 16-byte or 10-byte chunks, chunk i being the slice at i*slot; on well-formed payloads the code's own debug assertions hold; over-long padding: one report at the RDH, no word examined, state reset",
                 outside=["payloads > 64 (thorough: 100) bytes", "the view path"]),
@@ -51,14 +51,14 @@ PROPS = {
                 outside=["HBF / layer-stave collection inside the analysis thread", "distinct error codes (regex)", "report table, written file"]),
     "C15": dict(decided="drift-detection half: a collector that differs from the reference in exactly one collected statistic (each StatType message kind with an arbitrary value, each of the 20 counted trigger bits, each ALPIDE readout-flag counter) is rejected by validate_other_stats / AlpideStats::validate_other in both directions; identical collectors are accepted",
                 outside=["JSON/TOML writing and parsing, i.e. the round-trip half of the property", "hostile strings in messages", "Controller::run's file handling and the exit status"]),
-    "C16": dict(decided="util::lib::exit == documented table for all (code, flag, configured any-errors code); Config::validate_args is Err iff a documented invalid combination (check kind x target x trigger period x -E); error total == number of Error messages collected; custom-check failures counted",
-                outside=["clap parsing", "the controller thread", "display filtering by code (Chars iterators; not built)", "'rejected before any output is written'"]),
+    "C16": dict(decided="util::lib::exit == documented table for all (code, flag, configured any-errors code); Config::validate_args is Err iff a documented invalid combination (check kind x target x trigger period x -E); error total == number of Error messages collected; custom-check failures counted; match_error_code (the display filter's kernel) is true iff the message's code EQUALS the listed code for all digit values (2-4 digit codes, prefix cases both ways)",
+                outside=["clap parsing", "the controller thread", "the display filter's iterator plumbing over the message list (filter_error_msgs/minify_filter: best-effort harnesses exhaust memory)", "'rejected before any output is written'"]),
     "C18": dict(decided="one packet followed by arbitrary bytes, input cut in each region (RDH / payload / at the boundary / inside the next RDH; both ends of each region, contents symbolic): complete packet delivered unchanged, cut payload => RDH delivered + exactly one [E100], cut RDH => UnexpectedEof",
                 outside=["cut inside the first 8 bytes at init_processing level (fixed defect F2, shown on the binary)", "validators' reaction", "real pipes"]),
     "C19": dict(decided="view word offset formula for all indices/formats/offsets; ItsPayloadWord::from_id == identifier table for all 256 ids and agrees with the FSM's classification on allowed sequences; TDH/TDT/DDW0/RDH-trigger label functions == documented bits for all inputs",
                 outside=["rows, layout, styled == unstyled, anything written to stdout"]),
-    "C20": dict(decided="check_trigger_interval: Err iff (cur - prev) mod 3564 != P for all BC <= 3563 and all P; driver: [E45] exactly for consecutive internal-trigger TDHs; validate_custom_stats: [E9001]/[E9002] iff observed != configured, absent keys change nothing; configured RDH version enforced by the sanity validator",
-                outside=["TOML parsing", "chip count/order checks (behind check_bunch_counters: HashMap)"]),
+    "C20": dict(decided="check_trigger_interval: Err iff (cur - prev) mod 3564 != P for all BC <= 3563 and all P; driver: [E45] exactly for consecutive internal-trigger TDHs; validate_custom_stats: [E9001]/[E9002] iff observed != configured, absent keys change nothing; configured RDH version enforced by the sanity validator (also through new_from_config with an ITS target); OB chip count / chip order verdicts on <= 3 chips; the ALPIDE decoder step that produces the chip list they consume",
+                outside=["TOML parsing", "chip count/order checks reached through process_frame (behind check_bunch_counters: HashMap)"]),
 }
 
 
